@@ -1817,7 +1817,7 @@ class Interp:
                 bind(g.target, v)
                 ok = True
                 for c in g.ifs:
-                    t = self.truth(self.ev(c, s))
+                    t = self.truth_in(self.ev(c, s), s)
                     if t is None:
                         return False
                     if not t:
@@ -1956,7 +1956,7 @@ class Interp:
         last = None
         for v in n.values:
             x = self.ev(v, s)
-            t = self.truth(x)
+            t = self.truth_in(x, s)
             if t is None:
                 # remaining operands evaluated for events
                 for w in n.values[n.values.index(v) + 1:]:
@@ -1970,7 +1970,7 @@ class Interp:
         return last
 
     def ev_IfExp(self, n, s):
-        t = self.truth(self.ev(n.test, s))
+        t = self.truth_in(self.ev(n.test, s), s)
         if t is None:
             self.ev(n.body, s)
             self.ev(n.orelse, s)
@@ -2478,6 +2478,25 @@ class Interp:
                     return recv.setdefault(args[0], args[1] if len(args) > 1 else None)
                 except TypeError:
                     return TOP
+            if meth == 'pop' and args and is_concrete(args[0]) and not kwargs:
+                try:
+                    return recv.pop(*args)
+                except KeyError:
+                    self._pending_exc = 'KeyError'
+                    return TOP
+                except TypeError:
+                    return TOP
+            if meth == 'update' and not args and kwargs:
+                recv.update(kwargs)
+                return None
+            if meth == 'update' and len(args) == 1 and isinstance(args[0], (list, tuple)) and not kwargs:
+                try:
+                    recv.update(args[0])
+                    return None
+                except (TypeError, ValueError):
+                    pass
+            if meth in ('pop', 'popitem', 'update', 'setdefault', 'clear', '__setitem__', '__delitem__'):
+                self.imprecise.append('dict.%s with arguments that are not modelled: its effect is lost' % meth)
             return TOP
         return TOP
 
